@@ -21,9 +21,90 @@ def _apply(text, old, new, count=1):
     return text.replace(old, new)
 
 
+def apply_unified_diff(patch_text, read):
+    """Apply a git unified diff in memory. `read(rel)` returns the current text of a file. Returns {rel: new text} or
+    None when some hunk's old side is not found exactly once near its stated position (the tree moved on: stale)."""
+    files = {}
+    cur = None
+    hunks = []
+    for line in patch_text.splitlines():
+        if line.startswith("+++ "):
+            path = line[4:].strip()
+            cur = path[2:] if path.startswith("b/") else path
+            files[cur] = []
+        elif line.startswith("--- ") or line.startswith("diff ") or line.startswith("index ") or line.startswith("new file") \
+                or line.startswith("deleted file") or line.startswith("similarity") or line.startswith("rename "):
+            continue
+        elif line.startswith("@@") and cur is not None:
+            files[cur].append([])
+        elif cur is not None and files[cur] and (line[:1] in " +-" or line == ""):
+            files[cur][-1].append(line if line else " ")
+        elif line.startswith("\\"):
+            continue
+    out = {}
+    for rel, hs in files.items():
+        if rel == "/dev/null":
+            return None
+        try:
+            text = read(rel)
+        except Exception:
+            return None
+        for h in hs:
+            old = "".join(l[1:] + "\n" for l in h if l[0] in " -")
+            new = "".join(l[1:] + "\n" for l in h if l[0] in " +")
+            if text.count(old) != 1:
+                return None
+            text = text.replace(old, new)
+        out[rel] = text
+    return out
+
+
+def corpus_mutants(prop):
+    """seeded (must fire) and benign (must stay silent) patches committed under /verif, as overlay mutants"""
+    import json
+    root = os.path.dirname(os.path.dirname(os.path.dirname(os.path.abspath(__file__))))
+    out = []
+    res = {}
+    try:
+        res = {r["seed"]: r for r in json.load(open(os.path.join(root, "seeded", "RESULTS.json")))}
+    except Exception:
+        pass
+    sd = os.path.join(root, "seeded")
+    for sid in sorted(os.listdir(sd)) if os.path.isdir(sd) else []:
+        pf = os.path.join(sd, sid, "patch.diff")
+        if not os.path.exists(pf) or sid not in res:
+            continue
+        firing = [p for p, _ in res[sid].get("fired", [])]
+        if prop in firing and res[sid].get("evaluated_on") == "/repo":
+            out.append({"id": f"seed-{sid}", "patch": open(pf).read(), "expect": "any", "props": [prop]})
+    bd = os.path.join(root, "benign")
+    bres = {}
+    try:
+        bres = {r["id"]: r for r in json.load(open(os.path.join(bd, "RESULTS.json")))}
+    except Exception:
+        pass
+    for bid in sorted(os.listdir(bd)) if os.path.isdir(bd) else []:
+        pf = os.path.join(bd, bid, "patch.diff")
+        if not os.path.exists(pf):
+            continue
+        # a benign patch is relevant to the property it was written for, and must be silent there
+        if bid.split("-")[0] == prop and bres.get(bid, {}).get("status") == "silent":
+            out.append({"id": f"benign-{bid}", "patch": open(pf).read(), "expect": "silent", "props": [prop]})
+    return out
+
+
 def _run_one(args):
     prop, mut = args
     base = Model()
+    if "patch" in mut:
+        overlay = apply_unified_diff(mut["patch"], base.text)
+        if overlay is None:
+            return mut["id"], "stale", [], []
+        try:
+            mod, ctx, errors = runner.run_rules(prop, Model(overlay=overlay))
+        except Exception as e:  # pragma: no cover
+            return mut["id"], "error", [], [f"{type(e).__name__}: {e}"]
+        return mut["id"], "ran", ctx.keys(), errors
     try:
         text = base.text(mut["file"])
     except AnalysisError:
@@ -44,7 +125,7 @@ def _run_one(args):
 
 def run_selftest(prop, seed=0):
     from .mutants import MUTANTS
-    muts = [m for m in MUTANTS if prop in m["props"]]
+    muts = [m for m in MUTANTS if prop in m["props"]] + corpus_mutants(prop)
     rnd = random.Random(seed)
     rnd.shuffle(muts)
     clean_mod, clean_ctx, clean_err = runner.run_rules(prop, Model())
@@ -75,7 +156,7 @@ def run_selftest(prop, seed=0):
         else:
             out["mutants_applied"] += 1
             want = m["expect"] if isinstance(m["expect"], (list, tuple)) else [m["expect"]]
-            hit = [k for k in new if any(k.startswith(w + "|") or k.split("|")[0] == w for w in want)]
+            hit = [k for k in new if want == ["any"] or any(k.startswith(w + "|") or k.split("|")[0] == w for w in want)]
             if hit:
                 out["mutants_detected"] += 1
                 out["detected"].append({"id": m["id"], "fired": hit[:3]})
